@@ -388,8 +388,9 @@ def check_masses(ctx, a, changer, before, g, tag, n, canary=False):
         aligned = t.zbottom == b.p.zbottom      # exact: a tolerance here would be amplified by H/h in the mass
         m0 = before["mass"][t]
         got = t.getMass()
-        if canary and k == n - 1:
-            got = got * ITE(AND(g[t] > 1.9, before["h"][k] > 300), 1.001, 1)
+        # (the canary perturbs the DENSITY obligation of the top target: with mixed target kinds the mass obligation of
+        # the target lies inside a recorded finding, and a canary has to be caught outside the recorded findings)
+        wrong = ITE(AND(g[t] > 1.9, before["h"][k] > 300), 1.001, 1) if canary and k == n - 1 else 1
         if KNOWN_DEFECT_target_mass_needs_aligned_column:
             ctx.check("%s: block %d: mass of the target component (%s) conserved when it sits on the block bottom" % (
                 tag, k, t.name), IMPLIES(aligned, CLOSE(got, m0, m0)))
@@ -401,7 +402,8 @@ def check_masses(ctx, a, changer, before, g, tag, n, canary=False):
             ctx.check("%s: block %d: all solids grown alike => mass of %s conserved" % (tag, k, c.name),
                       IMPLIES(AND(aligned, same), CLOSE(c.getMass(), before["mass"][c], before["mass"][c])))
             ctx.check_close("%s: block %d: density of %s divided by its growth factor" % (tag, k, c.name),
-                            c.getNumberDensity(NUC[c.name]) * g[c], before["dens"][c], scale=before["dens"][c])
+                            c.getNumberDensity(NUC[c.name]) * g[c] * (wrong if c is t else 1), before["dens"][c],
+                            scale=before["dens"][c])
     d = a[-1]
     for c in d:
         ctx.check("%s: dummy block composition untouched" % tag, not is_sym(c.getNumberDensity("NA")))
@@ -490,7 +492,9 @@ def prescribed_expansion_keeps_height_contiguity_and_target_mass(ctx, n, targets
                               dict(n=2, targets=("auto",) * 2, struct=("plate", "cclad"))],
                     # mixed targets sit entirely inside a recorded known finding (slow: the solver is asked for violations
                     # outside it): thorough tier only
-                    "thorough": [dict(n=2, targets=("clad", "fuel")), dict(n=3, targets=("fuel", "clad", "fuel")),
+                    # (n=3 with targets fuel/clad/fuel lies wholly inside the recorded finding and the search for a
+                    # violation outside its predicate did not finish in an hour: left out, stated as outside the bound)
+                    "thorough": [dict(n=2, targets=("clad", "fuel")),
                                  dict(n=4, targets=("fuel",) * 4),
                                  dict(n=3, targets=("auto",) * 3, struct=("plate", "cfuel", "pin")),
                                  dict(n=3, targets=("auto",) * 3, struct=("pin", "pin61", "noclad"))]})
@@ -518,6 +522,10 @@ def expansion_then_inverse_restores_the_assembly(ctx, n, targets, struct=None):
         return
     check_geometry(ctx, a, changer, mid, "after the inverse", n, targets, expected_targets(n, targets, struct))
     H = start["total"]
+    tot = a.getTotalHeight()
+    if ctx.canary:      # (also on an obligation outside the recorded mixed-target finding)
+        tot = tot * ITE(AND(g[comps[0]] > 1.9, hs[0] > 100), 1.001, 1)
+    ctx.check_close("total assembly height after both changes = total height at the start", tot, H, scale=H)
     for k, b in enumerate(a):
         got = b.getHeight()
         if ctx.canary and k == 0:
@@ -786,8 +794,9 @@ def thermal_expand(changer, a, temps):
                         "function (any material law)"], qtimeout_ms=10000,
          instances={"quick": [dict(n=2, heights=(25.0, 40.0, 30.0)), dict(n=2, heights=(12.0, 150.0, 60.0)),
                               dict(n=2, heights=(20.0, 45.0, 30.0), struct=("plate", "pin"))],
+                    # (three thermally expanding blocks with an uninterpreted law: the exact non-linear queries did not
+                    # finish in an hour: left out, stated as outside the bound)
                     "thorough": [dict(n=2, heights=(25.0, 40.0, 5.0)), dict(n=2, heights=(None, 40.0, 300.0)),
-                                 dict(n=3, heights=(15.0, 60.0, 35.0, 25.0)),
                                  dict(n=2, heights=(30.0, 45.0, 40.0), struct=("noclad", "pin61"))]})
 def thermal_expansion_keeps_height_and_mass_for_any_law(ctx, n, heights, struct=None):
     fresh_module_state()
